@@ -20,12 +20,12 @@ sys.path.insert(0, os.path.join(os.path.dirname(os.path.dirname(os.path.abspath(
 from c11_ast import float_me, cname, bin_   # noqa: E402  (pure helpers, no library import)
 
 
-F22 = 'C11-v1-skip-init-false'
-F22_OPEN = [False]          # set in run(): is the finding listed as open?
+F85 = 'F85-v1-skip-init-false'
+F85_OPEN = [False]          # set in run(): is the finding listed as open?
 
 
-def f22_field(c, f):
-    """v1 engine: Alias(skip=True) on a field declared init=False (region of finding C11-v1-skip-init-false)"""
+def f85_field(c, f):
+    """v1 engine: Alias(skip=True) on a field declared init=False (region of finding F85-v1-skip-init-false)"""
     return bool(c['meta'].get('v1')) and not f['dump'] and f.get('dump_via') in ('v1_field', 'v1_annotated') \
         and f.get('init') is False
 
@@ -33,7 +33,7 @@ def f22_field(c, f):
 def model_dumped(c, f):
     """does the CURRENT implementation dump this field at all? (faithful model: while that finding is open, the
     skip=True of an init=False field is ignored)"""
-    return f['dump'] or (F22_OPEN[0] and f22_field(c, f))
+    return f['dump'] or (F85_OPEN[0] and f85_field(c, f))
 
 
 META = {
@@ -70,7 +70,9 @@ META = {
              'the constructor, values equal to the default but of another type 1/1.0/True, 0/-0.0/False). decl: classes built '
              'around those features x 3 skip_defaults settings. shared: ONE Condition object reused by 4 classes at different '
              'field positions / as Meta.skip_if / Meta.skip_defaults_if, dumped in sequence in one interpreter. former_f20: every '
-             'former F6/F20 value shape. A case is one to_dict call; non-trivial when the class has a '
+             'former F6/F20 value shape. history: nested dataclass without rules + enclosing class with Meta rules, '
+             'orders enclosing>nested>enclosing and nested>enclosing>nested in one interpreter, every observation checked with '
+             'the rules applying there (own / own / cascaded). A case is one to_dict call; non-trivial when the class has a '
              'condition or a default and >= 2 fields or a non-empty E; distinct = distinct (class, instance, E, s).'),
     'trusted_base': ['model coq/model/SkipModel.v; nested shared nan objects inside containers are outside the model '
                      '(generators never share them)',
@@ -160,11 +162,11 @@ def d_inlined(d):
         return True
     if not d_hashable(d) or d_nonfinite(d):
         return False
-    return not (d['t'] == 'tok' and d['k'] in ('enum', 'user'))
+    return not (d['t'] == 'inst' or (d['t'] == 'tok' and d['k'] in ('enum', 'user')))
 
 
 def d_has_tok(d):
-    if d['t'] == 'tok':
+    if d['t'] in ('tok', 'inst'):
         return True
     if d['t'] in ('tuple', 'list'):
         return any(d_has_tok(x) for x in d['v'])
@@ -254,12 +256,14 @@ def cv(d):
         return '(VDict %s)' % coq_list(['(%s, %s)' % (cv(k), cv(v)) for k, v in d['v']])
     if t == 'tok':
         return '(VTok %s %s)' % (TOKK[d['k']], cz(d['id']))
+    if t == 'inst':          # instance of the nested dataclass (eq=False): an object with identity
+        return '(VTok KUser %s)' % cz(1000 + d['i'])
     raise ValueError(t)
 
 
 def clv(lv, ids):
     d = lv['d']
-    if d_singleton(d) or d['t'] == 'tok':
+    if d_singleton(d) or d['t'] in ('tok', 'inst'):
         return '(LV None %s)' % cv(d)
     return '(LV (Some %s) %s)' % (cz(ids[str(lv['l'])]), cv(d))
 
@@ -626,6 +630,109 @@ def shared_cases(ctx):
     return cases
 
 
+def history_cases(ctx):
+    """Nested dataclasses and two-step histories in one interpreter: an enclosing class whose Meta sets
+    skip rules holds instances of a nested dataclass (directly or in a list) that declares none.
+    Orders: enclosing -> nested alone -> enclosing, and nested alone -> enclosing -> nested alone."""
+    r = ctx.sub_rng('history')
+    out = []
+    for hi in range(14 if ctx.tier == 'quick' else 120):
+        L = Labels()
+        # ---- the nested class: no Meta; defaults, possibly own per-field conditions
+        iw = r.choice(['plain', 'plain', 'json'])
+        ifields = []
+        for nm in r.sample(NAMES, r.choice([2, 3, 4])):
+            f = {'name': nm, 'key': ref_key(nm, 'json'), 'dump': True, 'default': None, 'cond': None, 'place': None}
+            if r.random() < 0.8:
+                f['default'] = L.new(r.choice([D(None), D(0), D(1), D(''), D('x'), D(1.5), D([]), D(False)] + POOL[:40]))
+                f['factory'] = False
+            if r.random() < 0.25:
+                f['cond'] = gen_cond(r, L, True, ops=['==', '!=', 'is', '+', '!'])
+                f['place'] = r.choice(['field', 'annotated'])
+            ifields.append(f)
+        iinsts = []
+        for _ in range(3):
+            iv = []
+            for f in ifields:
+                if f['default'] is not None and r.random() < 0.7:
+                    iv.append(default_like(r, L, f))
+                else:
+                    iv.append(L.new(r.choice([D(None), D(0), D(2), D('y'), D([1])])))
+            iinsts.append(iv)
+        inner = {'stream': 'history', 'wizard': iw, 'eq': False, 'kw_only': True, 'fields': ifields, 'meta': {},
+                 'instances': iinsts, 'Es': [None, [ifields[0]['name']]], 'ss': [None, True, False]}
+        # ---- the enclosing class: Meta with skip rules (recursive by default)
+        ow = r.choice(['json', 'json', 'plain'])
+        meta = {}
+        u = r.random()
+        if u < 0.45:
+            meta['skip_defaults'] = True
+        if u > 0.35:
+            meta[r.choice(['skip_if', 'skip_if', 'skip_defaults_if'])] = gen_cond(r, L, True, ops=['is', '==', '!', '+', '!='])
+        ofields = []
+        for nm in r.sample([n for n in NAMES if n not in [f['name'] for f in ifields]] + ['inner_a', 'inner_b'], r.choice([2, 3])):
+            f = {'name': nm, 'key': ref_key(nm, 'json'), 'dump': True, 'default': None, 'cond': None, 'place': None}
+            ofields.append(f)
+        kinds = []
+        for j, f in enumerate(ofields):
+            if j == 0 or r.random() < 0.3:
+                f['nested'] = r.choice(['direct', 'list'])
+                if r.random() < 0.3:
+                    f['default'] = L.new(D(None))
+                    f['factory'] = False
+            elif r.random() < 0.6:
+                f['default'] = L.new(r.choice(POOL[:40]))
+                f['factory'] = False
+        oinsts = []
+        for _ in range(2):
+            iv = []
+            for f in ofields:
+                if f.get('nested') == 'direct':
+                    iv.append(L.new({'t': 'inst', 'i': r.randrange(3)}))
+                elif f.get('nested') == 'list':
+                    iv.append(L.new({'t': 'list', 'v': [{'t': 'inst', 'i': k} for k in r.sample(range(3), r.choice([1, 2, 3]))]}))
+                elif f['default'] is not None and r.random() < 0.6:
+                    iv.append(default_like(r, L, f))
+                else:
+                    iv.append(L.new(r.choice(POOL[:40])))
+            oinsts.append(iv)
+        outer = {'stream': 'history', 'wizard': ow, 'kw_only': True, 'fields': ofields, 'meta': meta, 'instances': oinsts,
+                 'Es': [None, [ofields[-1]['name']]], 'ss': [None, True, False]}
+        order = ['outer', 'inner', 'outer'] if hi % 2 == 0 else ['inner', 'outer', 'inner']
+        out.append({'inner': inner, 'outer': outer, 'order': order})
+    return out
+
+
+def history_pseudo_cases(ctx, hists, results):
+    """flatten the observations of the histories into (case descriptor, runner output) pairs"""
+    cases, outs = [], []
+    for h, res in zip(hists, results):
+        if 'steps' not in res:
+            e = res.get('runner_err') or res.get('setup_err') or {}
+            ctx.violation('history could not be set up: %s: %s' % (e.get('err'), e.get('msg')), {'kind': 'history', 'history': h})
+            continue
+        tag = '>'.join(h['order'])
+        for pos, step in enumerate(h['order']):
+            st = res['steps'][pos]
+            if step == 'inner':
+                cases.append(dict(h['inner'], stream='history', history=h, what='nested class alone, step %d of %s' % (pos + 1, tag)))
+                outs.append({'ids': res['ids'], 'instances': st['instances'], 'class_source': res.get('class_source')})
+            else:
+                cases.append(dict(h['outer'], stream='history', history=h, what='enclosing class, step %d of %s' % (pos + 1, tag)))
+                outs.append({'ids': res['ids'], 'instances': st['instances'], 'class_source': res.get('class_source')})
+                ks = sorted(int(k) for k in st['nested'])
+                if ks:
+                    meta = {k: v for k, v in h['outer']['meta'].items() if k in ('skip_defaults', 'skip_if', 'skip_defaults_if')}
+                    cases.append(dict(h['inner'], meta=meta, instances=[h['inner']['instances'][k] for k in ks], Es=[None],
+                                      ss=[None], stream='history', history=h,
+                                      what='nested instances inside the enclosing dump, step %d of %s' % (pos + 1, tag)))
+                    outs.append({'ids': res['ids'], 'instances': [{'calls': [st['nested'][str(k)]]} for k in ks],
+                                 'class_source': res.get('class_source')})
+                if st['inconsistent']:
+                    ctx.violation('the same nested instance is dumped differently within one history', {'kind': 'history', 'history': h})
+    return cases, outs
+
+
 def cls_cases(ctx):
     r = ctx.sub_rng('cls')
     cases = []
@@ -781,10 +888,10 @@ def check_call(c, rec, call):
         return ('keys %r not in field order %r' % (got['keys'], known), None)
     wrong = [f['key'] for f in exp['fields'] if ('keep' if f['key'] in got['keys'] else 'omit') not in f['acc']]
     if wrong:
-        f22 = {f['key'] for f in c['fields'] if f22_field(c, f)}
+        f22 = {f['key'] for f in c['fields'] if f85_field(c, f)}
         if set(wrong) <= f22 and all(k in got['keys'] for k in wrong):
             return ('keys %r, reference selection %r: v1 Alias(skip=True) ignored on init=False field(s) %r'
-                    % (got['keys'], lazy, wrong), F22)
+                    % (got['keys'], lazy, wrong), F85)
         return ('keys %r, reference selection %r (wrong: %r)' % (got['keys'], lazy, wrong), None)
     base = rec.get('baseline')
     if base is not None:
@@ -977,7 +1084,7 @@ def run_batch(ctx, cases):
 
 
 def run(ctx):
-    F22_OPEN[0] = ctx.is_open_region(F22)
+    F85_OPEN[0] = ctx.is_open_region(F85)
     # ---- listed findings: replay the witnesses
     for f in ctx.findings():
         w = f.get('witness')
@@ -992,6 +1099,16 @@ def run(ctx):
     for k in range(0, len(sh), 240):
         impl_cases.extend(ctx.impl('c11', {'sem': None, 'cases': sh[k:k + 240]})['cases'])
     cases = cases + sh
+    hists = history_cases(ctx)                   # nested classes: multi-step histories, one interpreter per batch
+    hres = []
+    for k in range(0, len(hists), 40):
+        hres.extend(ctx.impl('c11', {'histories': hists[k:k + 40]})['histories'])
+    hc, ho = history_pseudo_cases(ctx, hists, hres)
+    cases = cases + hc
+    impl_cases = impl_cases + ho
+    for h in hists:
+        ctx.hist('history_order', '>'.join(h['order']))
+        ctx.hist('history_nesting', ','.join(sorted(f['nested'] for f in h['outer']['fields'] if f.get('nested'))))
     failures = eval_cases(ctx, cases, impl_cases)
     n_viol = 0
     seen_cases = set()
@@ -1005,8 +1122,11 @@ def run(ctx):
         seen_cases.add(ci)
         n_viol += 1
         if n_viol <= 8:
-            ctx.violation('%s [%s class, %d field(s)]' % (what, c['wizard'], len(c['fields'])),
-                          {'kind': 'case', 'case': c, 'instance': ii, 'call': k})
+            if c.get('history') is not None:
+                ctx.violation('%s [%s]' % (what, c['what']), {'kind': 'history', 'history': c['history']})
+            else:
+                ctx.violation('%s [%s class, %d field(s)]' % (what, c['wizard'], len(c['fields'])),
+                              {'kind': 'case', 'case': c, 'instance': ii, 'call': k})
     for c in cases:
         ctx.hist('stream', c['stream'])
         ctx.hist('wizard', c['wizard'] + ('/v1' if c['meta'].get('v1') else ''))
@@ -1051,6 +1171,28 @@ def run(ctx):
 
 
 def replay(ctx, obj, quiet=False):
+    if obj.get('kind') == 'history':
+        h = obj['history']
+        res = ctx.impl('c11', {'histories': [h]})['histories']
+
+        class _C:           # collect violations without writing replay files
+            def violation(self, what, _o):
+                bad.append(what)
+        bad = []
+        hc, ho = history_pseudo_cases(_C(), [h], res)
+        for c, o in zip(hc, ho):
+            for ii, rec in enumerate(o['instances']):
+                for call in rec['calls']:
+                    b = check_call(c, rec, call)
+                    if b:
+                        bad.append('%s: %s' % (c['what'], b[0]))
+        if not quiet:
+            print(res[0].get('class_source'))
+            print('order: %s' % ' -> '.join(h['order']))
+            for b in bad[:6]:
+                print(b)
+            print('all observations satisfy the property' if not bad else 'property fails')
+        return not bad
     if obj.get('kind') == 'case':
         c = obj['case']
         res = ctx.impl('c11', {'sem': None, 'cases': [c]})['cases'][0]
